@@ -17,7 +17,8 @@ import (
 // ---- C02: the versioned store equals its sequential specification -----------
 
 type HistoryCase struct {
-	Ops []dbx.Op `json:"ops"`
+	Ops    []dbx.Op `json:"ops"`
+	Sparse bool     `json:"sparse"` // the full superuser dump is taken only at the end, not after every call
 }
 
 func runC02(t *testing.T, hc HistoryCase) (*h.Violation, h.Info) {
@@ -36,6 +37,9 @@ func runC02(t *testing.T, hc HistoryCase) (*h.Violation, h.Info) {
 	finish := func(v *h.Violation) (*h.Violation, h.Info) {
 		cs, nt := dbx.HistoryClasses(hc.Ops, classes)
 		info.Classes, info.NonTrivial = cs, nt
+		if hc.Sparse {
+			info.Classes = append(info.Classes, "observed-only-through-its-own-calls")
+		}
 		return v, info
 	}
 	for i, op := range hc.Ops {
@@ -57,6 +61,9 @@ func runC02(t *testing.T, hc HistoryCase) (*h.Violation, h.Info) {
 		if msg := keep.Unchanged(); msg != "" {
 			return finish(h.V("returned-results-are-private-copies", "step %d %s: %s", i, op, msg))
 		}
+		if hc.Sparse && i != len(hc.Ops)-1 {
+			continue // observing (list, info, get) is itself a sequence of calls: also run histories without it
+		}
 		dump, err := dbx.Dump(d)
 		if err != nil {
 			return finish(h.V("state-consistent", "step %d %s: superuser dump failed: %v", i, op, err))
@@ -76,7 +83,9 @@ var c02 = &h.Campaign[HistoryCase]{
 	Prop: "C02", Sub: "history",
 	Rule: "rapid: superuser histories (1-40 calls) of put/activate/delete-version/delete/get/get-version/conditional-get/info/list over 3 ordinary names plus \"\" and _internal/x, values from a small pool (re-puts of equal bytes frequent) incl. empty and nil, version selectors resolved against the model (0, active, latest, latest+1, existing[i], deleted[i], 2^32-1, absolute); result and full superuser dump compared with the map model after EVERY call; non-trivial = history contains delete-version->put, delete->re-create, or activate->put on one name; distinct by history",
 	Quick: 10000, Thorough: 1500000,
-	Gen: func(rt *rapid.T) HistoryCase { return HistoryCase{Ops: dbx.GenHistory(rt, 1, 40)} },
+	Gen: func(rt *rapid.T) HistoryCase {
+		return HistoryCase{Ops: dbx.GenHistory(rt, 1, 40), Sparse: rapid.Bool().Draw(rt, "sparse")}
+	},
 	Run: runC02,
 }
 
